@@ -40,7 +40,9 @@ def pytask_execute_task_setup(session: Session, task: PTask) -> None:
     dependencies and before the same hook implementation for skipping tasks.
 
     """
-    if has_mark(task, "persist"):
+    # In a dry-run, a task following a task which would be executed is reported as such:
+    # whether its nodes are still changed once the preceding tasks ran cannot be known.
+    if has_mark(task, "persist") and not has_mark(task, "would_be_executed"):
         all_states = [
             (
                 session.dag.nodes[name].get("task") or session.dag.nodes[name]["node"]
